@@ -1,4 +1,5 @@
 import GoCrypt.Proofs.Argon2Sched
+import GoCrypt.Props.C09Link
 
 /-!
 # C09 — Argon2 with parallelism > 1 is deterministic and equals the sequential evaluation
@@ -221,5 +222,15 @@ example {V : Type} (G : V → V → V → V) (rnd : Nat → Nat → V → Nat) (
 #print axioms argon2_accesses_in_memory
 #print axioms argon2_phase_schedule_independent
 #print axioms key_schedule_independent
+-- the link to the concrete model (Props/C09Link.lean): the model's own fill loop is the sequential run of the instantiated
+-- lane-task system, so EVERY family of complete schedules yields the model's key (= the RFC 9106 reference, C04.key_eq_rfc)
+#print axioms GoCrypt.C09Link.processSegment_is_task
+#print axioms GoCrypt.C09Link.model_fill_eq_seqFill
+#print axioms GoCrypt.C09Link.fill_eq_any_complete_schedule
+#print axioms GoCrypt.C09Link.key_eq_any_complete_schedule
+#print axioms GoCrypt.C09Link.complete_schedules_same_key
+#print axioms GoCrypt.C09Link.C09
+#print axioms GoCrypt.C09Link.model_geom
+#print axioms GoCrypt.C09Link.addrBlock_eq_rfc
 
 end GoCrypt.C09
